@@ -593,7 +593,7 @@ def check_items(ctx, out, rule="C11.items"):
                 loops.append((h, cfg.loops()[h], bi))
     def is_val(c):
         a = (c.get("arg_tys") or [""])[0]
-        return "serde_json::Value" in a or "SimpleDiagnostic" in a
+        return "serde_json::Value" in a or "SimpleDiagnostic" in a or re.search(r"Vec<blockwatch::validators::Violation>", a) is not None
     for bi, t in v.calls():
         if callee_matches(t, LOSSY) and is_val(t) and "HashMap" not in (t.get("arg_tys") or [""])[0]:
             out.viol(rule, "%s|lossy|%s" % (rule, callee_name(t).split("::")[-1]), ctx.where(v, t["span"]),
